@@ -38,20 +38,9 @@ theorem hist1_quiet (x : GSys) (op : Beetswap.Client.Op) (hq : quietOp op = true
   rw [hist1_gstep x op h1', ← base_hist1 x h1]
   cases op <;> first | rfl | cases hq
 
-theorem mem_sendingChanged (c : Client.State) (p : Nat) (st : Sending) (q : Nat) :
-    q ∈ (Client.sendingChanged c p st).peers ↔ q ∈ c.peers := by
-  unfold Client.sendingChanged
-  cases hp : c.peers[p]? with
-  | none => rfl
-  | some ps =>
-    simp only [ExtTreeMap.mem_insert]
-    constructor
-    · rintro (h | h)
-      · have : p = q := by simpa using h
-        subst this
-        exact (kmap_mem_iff _ _).2 ⟨ps, hp⟩
-      · exact h
-    · exact Or.inr
+theorem mem_sendingChanged (c : Client.State) (p src : Nat) (st : Sending) (q : Nat) :
+    q ∈ (Client.sendingChanged c p src st).peers ↔ q ∈ c.peers :=
+  ClientSending.mem_sendingChanged c p src st q
 
 /-- operations that neither record anything nor open / close sessions -/
 def calmOp : Beetswap.Client.Op → Bool
@@ -64,7 +53,7 @@ theorem mem_step_calm (x : Sys) (op : Beetswap.Client.Op) (hc : calmOp op = true
   | get k fits => simp only [Beetswap.Client.step]; rw [(ClientView.get_fields x.s k fits).1]
   | cancel q' => simp only [Beetswap.Client.step]; rw [(ClientView.cancel_fields x.s q').1]
   | complete n r => simp only [Beetswap.Client.step]; rw [(ClientView.complete_fields x.s n r).1]
-  | sending p st => exact mem_sendingChanged x.s p st q
+  | sending p src st => exact mem_sendingChanged x.s p src st q
   | tick ms => rfl
   | takeNewBlocks => rfl
   | _ => cases hc
@@ -219,9 +208,8 @@ theorem drainA_sent (g : GS) (ha : AInv g) (ha' : AInv (gnext g .drainA)) :
     rw [step_drainA_a g.s ha.srv]
     simp only [drainedA]
     split
-    · show (Client.sendingChanged _ _ _).wantlist = _
-      unfold Client.sendingChanged
-      split <;> exact d1
+    · show (Client.sendingChanged _ _ _ _).wantlist = _
+      rw [(ClientSending.sendingChanged_fields _ _ _ _).2.1]; exact d1
     · exact d1
   refine ⟨?_, ?_⟩
   · rw [step_drainA g.s ha.srv, absorbA_wireAB, allSends_eq_sendsTo _ hall, hsl]
@@ -244,16 +232,16 @@ theorem drainA_sent (g : GS) (ha : AInv g) (ha' : AInv (gnext g .drainA)) :
           exact (mem_step_calm x.sys op (hc op (List.mem_cons_self ..)) 1).1 m
         exact ⟨e.trans (hist1_calm x op (hc op (List.mem_cons_self ..)) hm).1, hm⟩
     have hcalm : ∀ op ∈ ([Beetswap.Client.Op.takeNewBlocks] ++
-        (if (Node.step g.s.a (.drain [] [])).2.1.any isSend then [Beetswap.Client.Op.sending 1 (.sending 1)] else [])),
+        (if (Node.step g.s.a (.drain [] [])).2.1.any isSend then [Beetswap.Client.Op.sending 1 1 (.sending 1)] else [])),
         calmOp op = true := by
       intro op hop
       split at hop
       · simp at hop; rcases hop with rfl | rfl <;> rfl
       · simp at hop; subst hop; rfl
     rw [show ([Beetswap.Client.Op.drain (Node.prefOf []), Beetswap.Client.Op.takeNewBlocks] ++
-        (if (Node.step g.s.a (.drain [] [])).2.1.any isSend then [Beetswap.Client.Op.sending 1 (.sending 1)] else []))
+        (if (Node.step g.s.a (.drain [] [])).2.1.any isSend then [Beetswap.Client.Op.sending 1 1 (.sending 1)] else []))
         = Beetswap.Client.Op.drain (Node.prefOf []) :: ([Beetswap.Client.Op.takeNewBlocks] ++
-        (if (Node.step g.s.a (.drain [] [])).2.1.any isSend then [Beetswap.Client.Op.sending 1 (.sending 1)] else []))
+        (if (Node.step g.s.a (.drain [] [])).2.1.any isSend then [Beetswap.Client.Op.sending 1 1 (.sending 1)] else []))
         from rfl] at h1' ⊢
     simp only [grun] at h1' ⊢
     obtain ⟨e, m⟩ := htail _ _ hcalm h1'
